@@ -543,7 +543,7 @@ def write_programs(path, designs):
 # ---------------------------------------------------------------------------
 # decorations (property C11): behaviour-neutral rewrites of a design program
 # ---------------------------------------------------------------------------
-DEF_OPS = {"lit", "not", "bin", "slice", "bit", "zext", "oext", "sext", "mux", "var", "reg", "xovr"}
+DEF_OPS = {"lit", "not", "bin", "slice", "bit", "zext", "oext", "sext", "mux", "var", "reg", "xovr", "memread"}
 MUT_OPS = {"set", "setslice", "setbit", "close", "loopvar"}
 
 
